@@ -345,9 +345,13 @@ class SymEnum(object):
         object.__setattr__(self, "_cls", cls)
         object.__setattr__(self, "e", e)
         object.__setattr__(self, "_domain", tuple(domain) if domain is not None else tuple(cls))
+        object.__setattr__(self, "_fixed", None)    # (path-local) member once concretised
 
     def __getattr__(self, name):
         cls = object.__getattribute__(self, "_cls")
+        fixed = object.__getattribute__(self, "_fixed")
+        if fixed is not None:
+            return getattr(fixed, name)
         if name == "name":
             return self.concretize().name
         if name == "value":
@@ -373,13 +377,25 @@ class SymEnum(object):
         raise Unsupported("setattr on SymEnum")
 
     def concretize(self):
-        for m in self._domain:
-            if SymBool(eqc(self.e, m.value)):
-                return m
-        raise HarnessError("SymEnum outside its domain")
+        """Fork until one member remains: binary splitting over the sorted member values."""
+        if self._fixed is not None:
+            return self._fixed
+        ms = sorted(self._domain, key=lambda m: m.value)
+        while len(ms) > 1:
+            mid = ms[(len(ms) - 1) // 2]
+            if SymBool(memo(("le", self.e.get_id(), mid.value), lambda: (self.e, self.e <= mid.value))[1]):
+                ms = ms[:(len(ms) - 1) // 2 + 1]
+            else:
+                ms = ms[(len(ms) - 1) // 2 + 1:]
+        object.__setattr__(self, "_fixed", ms[0])
+        return ms[0]
 
     def _eq(self, other):
         cls = self._cls
+        if self._fixed is not None:
+            if isinstance(other, SymEnum):
+                return other._eq(self._fixed)
+            return self._fixed == other
         if isinstance(other, SymEnum):
             if other._cls is not cls:
                 return False
